@@ -141,8 +141,24 @@ fn calc_single(ty: Intern<Ty>, pointer_bit_width: u32) {
             sub_ty.size()
         }
         Ty::NaivePolymorphicFunction { .. } => pointer_bit_width / 8,
-        Ty::ConcreteFunction { .. } => pointer_bit_width / 8,
-        Ty::FunctionPointer { .. } => pointer_bit_width / 8,
+        Ty::ConcreteFunction {
+            param_tys,
+            return_ty,
+            ..
+        }
+        | Ty::FunctionPointer {
+            param_tys,
+            return_ty,
+        } => {
+            // calling the function needs the layout of every parameter, also of the ones whose
+            // type no expression has (an unused `numbers: ...i16` is a `[]i16`)
+            for param in param_tys {
+                calc_single(param.ty, pointer_bit_width);
+            }
+            calc_single(*return_ty, pointer_bit_width);
+
+            pointer_bit_width / 8
+        }
         Ty::AnonStruct { members } | Ty::ConcreteStruct { members, .. } => {
             let members = members.iter().map(|member| member.ty).collect::<Vec<_>>();
             for member_ty in &members {
